@@ -194,3 +194,71 @@ def lint_literal_fallback(rep: Report, fi: FuncInfo, rule: str = "G2", fill_call
             rep.violation(rule, fi, last, "fall-through return of a constant-filled tensor after the constructions above failed: the caller silently receives a wrong object instead of an error", node=last)
             return
     rep.ok(rule, fi, "last statement is not a constant-filled fallback return")
+
+
+def lint_chunk_local_index(rep: Report, fi: FuncInfo, rule: str = "CHUNK-INDEX") -> int:
+    """An index found inside one slab `X[s : s + step]` of a chunked loop `for s in range(a, b, step)` is local
+    to the slab: before it selects from the whole array it must be offset by `s`."""
+    set_parents(fi.node)
+    n = 0
+    for lp in ast.walk(fi.node):
+        if not (isinstance(lp, ast.For) and isinstance(lp.target, ast.Name) and isinstance(lp.iter, ast.Call) and call_name(lp.iter) == "range" and len(lp.iter.args) == 3):
+            continue
+        s = lp.target.id
+        # names bound inside the loop to expressions over a slab starting at s
+        slab_names = set()
+
+        def over_slab(e: ast.AST) -> bool:
+            for x in ast.walk(e):
+                if isinstance(x, ast.Subscript):
+                    sl = x.slice.elts[0] if isinstance(x.slice, ast.Tuple) and x.slice.elts else x.slice
+                    if isinstance(sl, ast.Slice) and isinstance(sl.lower, ast.Name) and sl.lower.id == s:
+                        return True
+                if isinstance(x, ast.Name) and x.id in slab_names:
+                    return True
+            return False
+
+        idx_names = {}
+        changed = True
+        while changed:
+            changed = False
+            for st in ast.walk(lp):
+                if not isinstance(st, ast.Assign):
+                    continue
+                v = st.value
+                if not over_slab(v):
+                    continue
+                call = v if isinstance(v, ast.Call) else None
+                short = (call_name(call) or "").split(".")[-1] if call is not None else ""
+                if call is not None and isinstance(call.func, ast.Attribute):
+                    short = call.func.attr
+                has_dim = call is not None and (any(k.arg == "dim" for k in call.keywords) or len(call.args) >= (2 if (call_name(call) or "").startswith("torch.") else 1))
+                for t in st.targets:
+                    if isinstance(t, ast.Tuple) and len(t.elts) == 2 and short in ("min", "max", "sort", "topk") and has_dim and isinstance(t.elts[1], ast.Name):
+                        if t.elts[1].id not in idx_names:
+                            idx_names[t.elts[1].id] = st
+                            changed = True
+                        if isinstance(t.elts[0], ast.Name) and t.elts[0].id not in slab_names:
+                            slab_names.add(t.elts[0].id)
+                            changed = True
+                    elif isinstance(t, ast.Name) and short in ("argmin", "argmax"):
+                        if t.id not in idx_names:
+                            idx_names[t.id] = st
+                            changed = True
+                    elif isinstance(t, ast.Name) and t.id not in slab_names and t.id not in idx_names:
+                        slab_names.add(t.id)
+                        changed = True
+        for nm, st in idx_names.items():
+            uses = [x for x in ast.walk(lp) if isinstance(x, ast.Name) and x.id == nm and isinstance(x.ctx, ast.Load)]
+            for u in uses:
+                par = getattr(u, "_parent", None)
+                offset = isinstance(par, ast.BinOp) and isinstance(par.op, ast.Add) and any(isinstance(o, ast.Name) and o.id == s for o in (par.left, par.right))
+                n += 1
+                if offset:
+                    rep.ok(rule, fi, f"{nm} + {s}", "slab-local index offset by the slab start", node=u, nontrivial=False)
+                else:
+                    host = par
+                    while host is not None and not isinstance(host, ast.stmt):
+                        host = getattr(host, "_parent", None)
+                    rep.violation(rule, fi, host if host is not None else st, f"`{nm}` indexes positions inside the slab that starts at `{s}` ({unparse(st)[:70]}), but it is used without adding `{s}`: for inputs longer than one slab it points into the first slab of the whole array", node=u)
+    return n
